@@ -222,6 +222,8 @@ func c20op(cs *h.Case, tk []string, outs *[]string) string {
 		// the property's oracle
 		iv, it, ina, iho, ipo, why := c20indep(s)
 		switch {
+		case a.String() != s:
+			cs.Fail("string", fmt.Sprintf("Address(%q).String() = %q", s, a.String()))
 		case v != iv:
 			cs.Fail("valid-vs-independent-parse", fmt.Sprintf("Valid(%q) = %v, the independent parse says %v (%s)", s, v, iv, why))
 		case v:
